@@ -2,7 +2,10 @@
 from ._store import run_store
 from ..common import hx
 from ..storecheck import HistGen, encode_event
-from ..gen import AUTHORS
+from ..gen import AUTHORS, ev_tok
+from ..conc import forced, STORE_POINTS
+import os, shutil
+from ..common import RUNDIR
 
 THEOREMS = ['reachable_inv', 'store_read_back', 'read_back_forever', 'by_id_read_back', 'offsets_distinct', 'new_offset_fresh', 'reopen_reads',
             'delineate_ignores_what_follows', 'delineate_length_any_total', 'map_store', 'map_reopen']
@@ -46,5 +49,65 @@ def far_ends(c, runner):
             c.nontriv(('dln', n, t))
 
 
+def same_id_races(c, runner):
+    """two threads storing events that carry the SAME id (identical bytes, or different bytes: ids are not validated), thread A
+    paused at every yield point of its write transaction while B runs: an id is bound to ONE stored event - at most one of the
+    two calls returns an offset, the other is a duplicate - and the event whose store returned the offset reads back by id and
+    by that offset byte for byte (oracle: the property text; the serial replies of the real store as reference)."""
+    rng = c.rng
+    Q = c.tier == 'quick'
+    base = os.path.join(RUNDIR, 'C04r-%d' % os.getpid())
+    os.makedirs(base, exist_ok=True)
+    try:
+        scen = []
+        for k in range(3 if Q else 24):
+            g = HistGen(rng, 'C04')
+            e1 = g.new_event(kind=rng.choice([1, 1, 7, 30023]), pk=rng.choice(AUTHORS), tags=[[b'd', b'x'], [b't', b'a']],
+                             content=b'first' * rng.choice([1, 40, 500]))
+            e2 = dict(e1) if k % 3 == 0 else dict(e1, content=b'second' * rng.choice([1, 33, 400]), tags=[[b'd', b'x'], [b't', b'b']])
+            other = g.new_event(kind=1, content=b'other')
+            pre = ['STO ' + ev_tok(other)]
+            for p in STORE_POINTS:
+                for a, b in ((e1, e2), (e2, e1)):
+                    scen.append(dict(pre=pre, point=p, a='STO ' + ev_tok(a), b='STO ' + ev_tok(b),
+                                     after=['GID ' + hx(e1['id']), 'HAS ' + hx(e1['id'])], ea=a, eb=b))
+        res = forced(c, base, scen, tag='r')
+        offq, offm = [], []
+        for s, r in zip(scen, res):
+            if 'error' in r:
+                c.violation('oracle', 'forced schedule did not complete: %s' % r['error'][:80], r['lines'])
+                continue
+            if 'HUNG' in r['raw'] or 'panic' in r['raw']:
+                c.violation('oracle', 'a thread hung or panicked under the forced schedule: %s' % r['raw'][:100], r['lines'])
+                continue
+            c.count('same-id-race:%s' % ('reached' if r['reached'] else 'not-reached'))
+            oks = [(x, e) for x, e in ((r['ra'], s['ea']), (r['rb'], s['eb'])) if x.startswith('ok ')]
+            if len(oks) == 2:
+                c.violation('oracle', 'two concurrent stores of events with one id (A paused at %s) BOTH returned an offset (%s, %s): the id '
+                            'index holds one of them, the other was stored successfully and cannot be read back by id' % (s['point'], r['ra'], r['rb']), r['lines'])
+                continue
+            if len(oks) == 0:
+                c.violation('oracle', 'two concurrent stores of a new id: neither succeeded (%s, %s)' % (r['ra'][:20], r['rb'][:20]), r['lines'])
+                continue
+            other_reply = r['rb'] if oks[0][0] == r['ra'] else r['ra']
+            if other_reply != 'dup':
+                c.violation('oracle', 'the losing store of an id replied %s, not duplicate' % other_reply[:20], r['lines'])
+                continue
+            want = 'some ' + hx(encode_event(oks[0][1]))
+            if r['after'][0] != want or r['after'][1] != '1':
+                c.violation('oracle', 'after two concurrent stores of one id, the event whose store returned an offset does not read back by id '
+                            '(has_event %s)' % r['after'][1], r['lines'])
+                continue
+            if r['reached']:
+                c.nontriv(('same-id', s['point'], r['lines'][-3][:80]))
+    finally:
+        shutil.rmtree(base, ignore_errors=True)
+
+
+def extras(c, runner):
+    far_ends(c, runner)
+    same_id_races(c, runner)
+
+
 def run():
-    run_store('C04', THEOREMS, """Focus: event sizes from 0 bytes to several map chunks (the debug build grows the map file every 2048 bytes), reopen in between; oracle: every offset ever returned and every retrievable id reads back the exact bytes that were submitted; offsets as the specification predicts (8-aligned, increasing, never reused). Plus: Event::delineate (the length-prefixed cut on read) on slices that continue for 0 bytes .. several times 4 GiB behind the event. non-trivial = distinct history step whose battery was compared.""", {'reply', 'live', 'bytes'}, relevant={'STO', 'OPN', 'GID', 'OFF', 'HAS', 'MLN'}, extra=far_ends)
+    run_store('C04', THEOREMS, """Focus: event sizes from 0 bytes to several map chunks (the debug build grows the map file every 2048 bytes), reopen in between; oracle: every offset ever returned and every retrievable id reads back the exact bytes that were submitted; offsets as the specification predicts (8-aligned, increasing, never reused). Plus: Event::delineate (the length-prefixed cut on read) on slices that continue for 0 bytes .. several times 4 GiB behind the event; two threads storing one id (same or different bytes) under forced schedules: one offset, one duplicate, the stored one reads back. non-trivial = distinct history step whose battery was compared.""", {'reply', 'live', 'bytes'}, relevant={'STO', 'OPN', 'GID', 'OFF', 'HAS', 'MLN'}, extra=extras)
